@@ -329,10 +329,19 @@ def run(ctx):
                 if mcode == 0 or os.path.exists(os.path.join(tmp, f'mod_bad_{n}.nc')):
                     ctx.report('property', f'python -m emsarray clip with the unreadable geometry "1,2,3,4,5" ended with status {mcode}',
                                {'dataset': label})
-            code, err = run_cli(['export-geometry', src, os.path.join(tmp, f'cli_{n}.xyz')])
-            ctx.count('export:unknown_extension')
-            if code == 0 or os.path.exists(os.path.join(tmp, f'cli_{n}.xyz')):
-                ctx.report('property', f'unknown output format ended with status {code} / left a file', {'dataset': label})
+            # output names from which no format can be guessed: an unknown extension, none at all, a trailing dot, a name that is
+            # only an extension, a dotted directory
+            os.makedirs(os.path.join(tmp, 'v1.2'), exist_ok=True)
+            for bad_name in [f'cli_{n}.xyz'] + [[f'cli_{n}_mesh', f'cli_{n}_mesh.', os.path.join('v1.2', f'mesh_{n}'), '.geojson'][n % 4]]:
+                code, err = run_cli(['export-geometry', src, os.path.join(tmp, bad_name)])
+                ctx.count('export:unknown_extension')
+                ctx.case((label, 'export', 'unguessable', bad_name[-6:]), True)
+                left = os.path.exists(os.path.join(tmp, bad_name))
+                if code == 0 or left:
+                    ctx.report('property', f'export-geometry to {bad_name!r}, a name no format can be guessed from, ended with status {code}'
+                               f'{" and left a file" if left else ""}', {'dataset': label, 'output_name': bad_name})
+                if left:
+                    os.remove(os.path.join(tmp, bad_name))
             # ---- extract-points
             pts = []
             for p in rng.sample(rings, min(len(rings), 4)):
@@ -348,6 +357,10 @@ def run(ctx):
                     rows.insert(len(rows) // 2 + 1 if len(rows) > 1 else 1, {'name': 'far', 'lon': far[0], 'lat': far[1], 'extra': -1.0})
                 if shape_kind == 'miss_first':
                     rows.insert(0, {'name': 'far', 'lon': far[0], 'lat': far[1], 'extra': -1.0})
+                if policy != 'error' or shape_kind in ('hits', 'empty_row'):
+                    # a station listed twice (the same row again, as in a log of visits): one result per row
+                    rows.append(dict(rows[len(rows) // 2]))
+                    rows.insert(1, dict(rows[0]))
                 csv = os.path.join(tmp, f'pts_{n}_{policy}.csv')
                 # column layout: the documented default, latitude before longitude, and user-named columns in either order
                 lonn, latn, order, cflag = rng.choice([
